@@ -8,10 +8,34 @@ import vcheck as V
 PROP = "C07"
 
 
+def sweep(rng, thorough):
+    """every real storage statement of a block's transaction in turn (no knowledge of the model's statement classes):
+    bridge blocks with 1..4 deposits starting at deposit counts 0..3, l1info blocks with 1..3 leaves and a verify"""
+    out = []
+    nofault = dict(kind="none", at=0)
+    for i0 in range(4):
+        for n in range(1, 5):
+            pre = [dict(op="process", num=1, evs=[dict(t="leaf", x=j + 1, dc=j) for j in range(i0)], fault=nofault)] if i0 else []
+            evs = [dict(t="leaf", x=i0 + j + 1, dc=i0 + j) for j in range(n)] + [dict(t="other")]
+            for k in range(1, 34 * n + 4):
+                out.append(dict(kind="bridge", ops=pre + [
+                    dict(op="process", num=2, evs=evs, fault=dict(kind="real", at=k)),
+                    dict(op="process", num=2, evs=evs, fault=nofault),
+                    dict(op="process", num=3, evs=[dict(t="leaf", x=i0 + n + 1, dc=i0 + n)], fault=nofault)]))
+    for n in range(1, 4):
+        evs = [dict(t="leaf", x=j + 1) for j in range(n)] + [dict(t="verify", r=1, x=1), dict(t="v2", good=True)]
+        for k in range(1, 34 * n + 37):
+            out.append(dict(kind="l1info", ops=[
+                dict(op="process", num=1, evs=evs, fault=dict(kind="real", at=k)),
+                dict(op="process", num=1, evs=evs, fault=nofault),
+                dict(op="process", num=2, evs=[dict(t="leaf", x=n + 1), dict(t="verify", r=2, x=1)], fault=nofault)]))
+    return out if thorough else rng.sample(out, 80)
+
+
 def body():
     S.store_check(
         PROP, model_cfgs=["StoreBridge.cfg", "StoreL1.cfg", "StoreGer.cfg"], gen_cfgs=["StoreGenC07.cfg", "StoreGenC07big.cfg", "StoreGenL1C07.cfg", "StoreGenGerC07.cfg"], quick_n=300, thorough_n=6000,
-        counterexamples=[("StoreBridgeF1.cfg", "Inv")],
+        counterexamples=[("StoreBridgeF1.cfg", "Inv")], extra_behaviours=sweep,
         kinds_note="bridge, l1info, injected-GER", invs=["RootsMirror", "ConsecutiveIdx", "BlocksIncrease", "ProofsVerify", "HaltedStops"],
         assumptions=[
             "storage faults are injected as SQL triggers on the store's own DB file (INSERT/DELETE statements; SELECTs cannot be failed this way)",
